@@ -9,7 +9,9 @@ claimed = {
  "C06": ("the coercion ladder (CompareCombinedly) and the six operators, Identical, Compare, Equivalent, the value readings (To*), Kleene connectives of the ternary dependency, BETWEEN / AND / OR / NOT / IS expansions and integer/float arithmetic are proved against the documented rules; the consistency laws of the statement are lemmas over those contracts", "4 C06"),
  "C10": ("crash-point invariant of Handler.commit on a ghost file system: after every file-system call the table path holds the complete old or the complete new contents, on success the new ones; FileForUpdate routes writes to the temp file; Container.Commit delegates to commit for the registered handler; POSIX semantics of rename/remove/create are assumed contracts", "4 C10"),
  "C11": ("on a ghost file system: Handler.close / closeWithErrors / commit and ControlFile.Close leave none of the handler's control files and never touch the table of a read or update handler; every failed acquisition (NewHandlerFor*, TryCreate*) leaves no control file of its own; the transient lock of TryCreateRLockFile is removed on every path; signals and the retry loop (select) are outside", "4 C11"),
+ "C14": ("pool ownership: every conversion (To*) returns a fresh object or a singleton, and at every value.Discard call site of lib/query and lib/value (62 functions, zero-annotation sweep) the discarded value is proved to be a temporary allocated by the current activation (never a literal of the syntax tree, a table cell or a variable); the no-store-through-syntax-tree-slices frame is not yet under contract", "4 C14"),
  "C15": ("block stack and lookups: CreateChild puts one new block in front of the parent's (shared, unchanged) blocks; GetVariable / SubstituteVariableDirectly / FetchCursor act on the innermost block that declares the name and touch no other block (ghost model of the sync.Map-backed block maps); control-flow mapping of WHILE / function calls is not yet under contract", "4 C15"),
+ "C19": ("no-panic sweep: index/slice bounds, nil dereference, integer division, type assertion and make() obligations generated without annotations for ~210 functions (all built-in functions of function.go, the FORMAT interpreter, OFFSET/LIMIT, cursors, analytic helpers, lib/file handlers); those that discharge (about 900) are claimed, the others are listed as unclaimed; loaders' rectangularity and hangs are outside", "4 C19"),
  "C17": ("window frames (WindowFrameSet and its two helpers: one frame per row with the bounds the ROWS clause prescribes, whole partition only without ORDER BY or for UNBOUNDED..UNBOUNDED) and NTILE (closed form of the tile of every row, for all partition sizes and tile counts) are proved; sort-key equivalence/ordering lemmas are shared with C07; ranking, FIRST/LAST/NTH_VALUE, LAG/LEAD and aggregates OVER are not yet under contract", "4 C17"),
  "C16": ("Cursor.Fetch/Close/IsOpen/IsInRange/Count/Pointer proved against an abstract (snapshot, position) view for all positions and offsets, with machine integer arithmetic modelled exactly", "4 C16"),
 }
